@@ -4,6 +4,10 @@
 #include "lib.hpp"
 #include <algorithm>
 
+// pristine reference server (sim/pristine.cpp): digests computed in a process image that never called the library before
+extern "C" int pristine_start(uint64_t (*fn)(const char *text));
+extern "C" int pristine_query(const char *text, uint64_t *digest);
+
 enum Learner { L_PLS = 0, L_MLR = 1, L_LDA = 2 };
 enum Routine { R_BOOT = 0, R_YSCR_LOO, R_YSCR_BOOT, R_KMEANS_CV, R_PCARANK, R_SPLIT_CONC, R_LOO, R_KFOLD, R_GEN };
 static const char *routine_name[] = {"BootstrapRandomGroupsCV", "YScrambling/LOO", "YScrambling/Bootstrap", "KMeansRandomGroupsCV", "PCARankValidation",
@@ -101,6 +105,7 @@ static void call_routine(void *arg) {
     Case c2 = c; Out scratch;
     for (auto &r : c2.Y) for (double &v : r) v = (c.learner == L_LDA) ? v : v * 1.5 + 1.0;
     c2.gen_seed = c.gen_seed + 101;
+    if (c.routine == R_BOOT || c.routine == R_SPLIT_CONC || c.routine == R_KMEANS_CV || c.routine == R_PCARANK) c2.groups = c.groups > 2 ? c.groups - 1 : c.groups + 1;  // another fold layout on data of the same size
     if (c.routine == R_BOOT) c2.iters = (c.iters == k.nthreads * 2) ? k.nthreads * 3 : k.nthreads * 2;
     else if (c.routine != R_SPLIT_CONC) c2.iters = c.iters + 1;
     Call k2{&c2, &scratch, k.nthreads, false, nullptr, false};
@@ -331,11 +336,12 @@ struct HCv : Harness {
     int plan_strategy = p.has("sched.switches") ? SIM_REPLAY : (int)p.geti("sched.strategy");
     sim_conflicts_clear();
     // A: sequential reference (one worker at a time, one processor)
-    RunRes ra = run_once(p, c, A, SIM_S0_SEQUENTIAL, 1, 1, false, 0);
+    bool prior = p.geti("prior_call", 0) != 0;
+    RunRes ra = run_once(p, c, A, SIM_S0_SEQUENTIAL, 1, 1, false, 0, nullptr, prior);   // preceded by other calls of the same routine when the plan says so
     // C: requested thread count, canonical schedule, no noise (also the profiling pass for S4)
     RunRes rc = run_once(p, c, C, SIM_S0_SEQUENTIAL, c.nthreads, c.nproc, false, 1000);
     // B: requested thread count under the plan's schedule, with the noise client
-    RunRes rb = run_once(p, c, B, -1, c.nthreads, c.nproc, c.noise != 0, 777777, nullptr, p.geti("prior_call", 0) != 0);
+    RunRes rb = run_once(p, c, B, -1, c.nthreads, c.nproc, c.noise != 0, 777777);
     for (RunRes *r : {&ra, &rc, &rb}) fill_outcome_from_sim(o, r->sr, plan_strategy);
     if (p.geti("prior_call", 0)) o.counters["probe.prior_call_of_same_routine"]++;
     o.sched_sig = rb.sr.sched_sig;
@@ -350,6 +356,15 @@ struct HCv : Harness {
     std::string w;
     if (ra.unjoined || rc.unjoined || rb.unjoined) o.fail("unjoined-thread", std::string(routine_name[c.routine]) + ": a worker was not joined before the results were returned");
     for (RunRes *r : {&rc, &rb, &ra}) if (!r->race_cls.empty()) { o.fail(r->race_cls, std::string(routine_name[c.routine]) + ": unsynchronised shared state: " + r->race_txt); break; }
+    if (prior) {
+      // the sequential result must be the one a process obtains that has never called the library before
+      Hasher ha; A.hash(ha);
+      uint64_t d0 = 0;
+      if (pristine_query(p.text().c_str(), &d0)) {
+        o.counters["probe.compared_with_pristine_process"]++;
+        if (d0 != ha.h) o.fail("depends-on-earlier-calls", std::string(routine_name[c.routine]) + ": the result differs from the one obtained in a process that made no earlier library call (state kept across calls)");
+      } else o.counters["skipped.no_pristine_reference"]++;
+    }
     if (!outs_equal_bits(B, C, &w)) o.fail("schedule-divergence", std::string(routine_name[c.routine]) + ": same inputs and thread count, different schedule / clock / concurrent caller / earlier call => different result: " + w);
     if (!outs_close(C, A, &w)) o.fail("thread-count-divergence", std::string(routine_name[c.routine]) + ": " + std::to_string(c.nthreads) + " threads differ from the sequential run: " + w);
     if (!has_nan(A.pred) && !has_nan(A.aux) && (has_nan(B.pred) || has_nan(B.aux) || has_nan(C.pred))) o.fail("nan", std::string(routine_name[c.routine]) + ": NaN appears only in the multithreaded run");
@@ -647,4 +662,19 @@ struct HCv : Harness {
   }
 };
 
-int main(int argc, char **argv) { HCv h; return harness_main(h, argc, argv); }
+static HCv *g_h = nullptr;
+// runs in a fresh grandchild of the pristine zygote: the sequential reference run of the plan, without any earlier call
+static uint64_t pristine_reference(const char *text) {
+  Plan p = Plan::parse(text);
+  Case c = case_from_plan(p);
+  Out A;
+  HCv::RunRes r = g_h->run_once(p, c, A, SIM_S0_SEQUENTIAL, 1, 1, false, 0);
+  Hasher h; A.hash(h);
+  return r.rc == SIM_OK ? h.h : 0xdeadULL;
+}
+int main(int argc, char **argv) {
+  HCv h; g_h = &h;
+  bool c06 = true; for (int i = 1; i + 1 < argc; i++) if (!strcmp(argv[i], "--prop") && !strcmp(argv[i + 1], "C05")) c06 = false;
+  if (c06 && argc > 1 && (!strcmp(argv[1], "run") || !strcmp(argv[1], "replay"))) pristine_start(pristine_reference);   // before the first library call of this process
+  return harness_main(h, argc, argv);
+}
